@@ -199,6 +199,10 @@ def webLoop : Nat → Inst → Bytes → List Inst × LoopEnd
     (proved never to run out: `C16_loop_total`) -/
 def webLoopTop (raw : Bytes) : List Inst × LoopEnd := webLoop raw.length Inst.fresh raw
 
+/-- `WebsocketFrame.text(data)`: what the server side sends (FIN, TEXT, unmasked) -/
+def textFrame (data : Bytes) : Frame := ⟨true, false, false, false, 1, false, none, data⟩
+def text (data : Bytes) : Except Err Bytes := build [] (textFrame data)
+
 /-! An independent encoder written from the RFC 6455 §5.2 frame diagram
     (arithmetic, most significant field first), used as the specification
     in `C16_rfc`. -/
